@@ -1,0 +1,126 @@
+//go:build verif
+
+package cachex
+
+import (
+	"sync/atomic"
+	"time"
+	"unsafe"
+)
+
+// Verification hooks (build tag verif). A harness installs VerifYield to take control of
+// every preemption point of the cache code; without the tag verifYield is a no-op.
+
+// Yield sites.
+const (
+	VerifSiteBeforeLock       = 1 + iota // before futures.Lock() in Load/Get2/Set/removeRotted
+	VerifSiteAfterLock                   // right after futures.Lock()
+	VerifSiteAfterUnlock                 // right after futures.Unlock()
+	VerifSiteLoadUpdateTime              // getUpdateTime: before the atomic load
+	VerifSiteReadErr                     // getFutureStatus: before the plain read of future.err
+	VerifSiteLoadPredecessor             // getPredecessor: before the atomic load
+	VerifSiteStoreUpdateTime             // setValue: before the atomic store of updateTime
+	VerifSiteStorePredecessor            // setValue: before the atomic store of predecessor
+	VerifSiteSendJob                     // Load: before my.sendJob(...)
+	VerifSiteFutureWait                  // Future.Get1/Get2: before my.wg.Wait()
+)
+
+// VerifYield is called before each shared access of the instrumented functions.
+var VerifYield func(site int)
+
+func verifYield(site int) {
+	if VerifYield != nil {
+		VerifYield(site)
+	}
+}
+
+// VerifWaiting is the future whose wg.Wait() the caller of the last VerifSiteFutureWait
+// yield is about to enter.
+var VerifWaiting *Future
+
+func verifYieldWait(f *Future) {
+	VerifWaiting = f
+	verifYield(VerifSiteFutureWait)
+}
+
+// VerifNewCacheNoWorkers is NewCache without job goroutines, gc ticker and finalizer: the
+// harness plays the worker (VerifTakeJob/VerifSetValue) and the sweeper (VerifSweep).
+func VerifNewCacheNoWorkers(opts ...Option) Cache {
+	var args = createArguments(opts)
+	var my = &wrapper{&cacheImpl{
+		args:      args,
+		jobChan:   make(chan cacheJob, args.jobChanSize),
+		gcTicker:  nil,
+		closeChan: make(chan struct{}),
+	}}
+
+	var shardingCount = cacheSharding.GetShardingCount()
+	my.futures = make([]*cacheFuture, shardingCount)
+	for i := 0; i < shardingCount; i++ {
+		my.futures[i] = &cacheFuture{d: make(map[any]*Future, 4)}
+	}
+	return my
+}
+
+func verifImpl(c Cache) *cacheImpl {
+	return c.(*wrapper).cacheImpl
+}
+
+// VerifTakeJob is a non-blocking receive from jobChan.
+func VerifTakeJob(c Cache) (key any, future *Future, ok bool) {
+	select {
+	case job := <-verifImpl(c).jobChan:
+		return job.key, job.future, true
+	default:
+		return nil, nil, false
+	}
+}
+
+// VerifSetValue is what a job goroutine does with the loader's result.
+func VerifSetValue(f *Future, v any, err error) {
+	f.setValue(v, err)
+}
+
+// VerifSweep is what a job goroutine does on a gc tick.
+func VerifSweep(c Cache) {
+	verifImpl(c).removeRotted()
+}
+
+// VerifQueueLen is the number of queued jobs.
+func VerifQueueLen(c Cache) int {
+	return len(verifImpl(c).jobChan)
+}
+
+// VerifPeek reads the map entry of key without locking and without yields (to be called
+// only while every thread is parked).
+func VerifPeek(c Cache, key any) *Future {
+	var index, _ = cacheSharding.GetShardingIndex(key)
+	return verifImpl(c).futures[index].d[key]
+}
+
+// VerifFutureState reports whether updateTime is non-zero, and the predecessor (no yields).
+func VerifFutureState(f *Future) (done bool, pred *Future) {
+	var p = (*time.Time)(atomic.LoadPointer(&f.updateTime))
+	done = p != nil && !p.IsZero()
+	pred = (*Future)(atomic.LoadPointer(&f.predecessor))
+	return
+}
+
+// VerifShift back-dates a completed future by d (no-op while updateTime is zero; no yields).
+func VerifShift(f *Future, d time.Duration) {
+	var p = (*time.Time)(atomic.LoadPointer(&f.updateTime))
+	if p == nil || p.IsZero() {
+		return
+	}
+	var shifted = p.Add(-d)
+	atomic.StorePointer(&f.updateTime, unsafe.Pointer(&shifted))
+}
+
+func VerifShardIndex(key any) int {
+	var index, _ = cacheSharding.GetShardingIndex(key)
+	return index
+}
+
+func VerifShardCount() int {
+	return cacheSharding.GetShardingCount()
+}
